@@ -80,8 +80,27 @@ def LoLt : Option Key → Key → Prop
 /-- every key of the list is in `[lo, hi)` -/
 def Range (lo hi : Option Key) (l : List KV) : Prop := ∀ e ∈ l, LoLe lo e.1 ∧ LtHi e.1 hi
 
-/-- a leaf is ordered and within its bounds -/
-def LeafB (lo hi : Option Key) (l : Leaf) : Prop := Sorted l.es ∧ Range lo hi l.es
+/-- the stored prefix is a real common prefix of the keys, at most 255 bytes (none without keys) -/
+def Leaf.PreOK (l : Leaf) : Prop :=
+  l.pre ≤ 255 ∧ (l.es = [] → l.pre = 0) ∧ ∃ p : Key, p.length = l.pre ∧ ∀ e ∈ l.es, p <+: e.1
+
+/-- the stored prefix has the recorded length (a leaf without keys has no prefix) -/
+theorem storedPrefix (l : Leaf) (hpre : l.PreOK) (hne : l.es ≠ []) :
+    ((headKey l.es).take l.pre).length = l.pre ∧ ∀ e ∈ l.es, (headKey l.es).take l.pre <+: e.1 := by
+  obtain ⟨_, _, p, hp, hall⟩ := hpre
+  cases hes : l.es with
+  | nil => exact absurd hes hne
+  | cons x r =>
+    obtain ⟨t, ht⟩ := hall x (by rw [hes]; exact List.mem_cons_self)
+    have : (headKey (x :: r)).take l.pre = p := by
+      simp only [headKey]; rw [← ht, ← hp]; simp
+    rw [this]
+    refine ⟨hp, ?_⟩
+    intro e he
+    exact hall e (by rw [hes]; exact he)
+
+/-- a leaf is ordered, within its bounds, and its stored prefix is genuine -/
+def LeafB (lo hi : Option Key) (l : Leaf) : Prop := Sorted l.es ∧ Range lo hi l.es ∧ l.PreOK
 
 /-- a row of children with the separators between them, within `[lo, hi)`: the child left of
 separator `s` is below `s`, what follows is at or above it, separators increase strictly -/
@@ -218,7 +237,7 @@ theorem BT_Bounded_range : ∀ (h : Nat) (lo hi : Option Key) (t : BT h),
     BT.Bounded h lo hi t → Range lo hi (BT.toList h t) := by
   intro h
   induction h with
-  | zero => intro lo hi t ht; exact ht.2
+  | zero => intro lo hi t ht; exact ht.2.1
   | succ h ih =>
     intro lo hi t ht
     rw [BT_toList_succ]
@@ -254,10 +273,6 @@ theorem RowB_split {α} {P : Option Key → Option Key → α → Prop} :
     exact ⟨⟨h1, h2, b, a⟩, LoLt_trans h2 b, c', d⟩
 
 /-! ### count / size limits -/
-
-/-- the stored prefix is a real common prefix of the keys, at most 255 bytes (none without keys) -/
-def Leaf.PreOK (l : Leaf) : Prop :=
-  l.pre ≤ 255 ∧ (l.es = [] → l.pre = 0) ∧ ∃ p : Key, p.length = l.pre ∧ ∀ e ∈ l.es, p <+: e.1
 
 /-- a stored non-root leaf: not empty, at most `split` keys, fits a node -/
 def LeafOK (split : Nat) (l : Leaf) : Prop :=
